@@ -48,8 +48,18 @@ def pair_cases(draw, max_m=8):
     else:
         q = list(p)
         for i in range(m):
-            act = draw(st.sampled_from(["keep", "keep", "raise", "lower"]))
+            act = draw(st.sampled_from(["keep", "keep", "raise", "lower", "nudge"]))
             if act == "keep":
+                continue
+            if act == "nudge":
+                # strictly different by one to a few ulps / by 1e-10 relative: still strictly better or worse for
+                # the Pareto comparator (the epsilon clause skips such pairs, they are not "separated")
+                import math as _m
+                up = draw(st.booleans())
+                v = p[i]
+                for _ in range(draw(st.sampled_from([1, 1, 3, 1000000]))):
+                    v = _m.nextafter(v, _m.inf if up else -_m.inf)
+                q[i] = v
                 continue
             d = draw(st.one_of(st.integers(1, 3).map(float), st.floats(1e-6, 1e3)))
             step = max(d, abs(p[i]) * 1e-6)
